@@ -43,6 +43,11 @@ type Op struct {
 	X []Op   `json:"x,omitempty"` // nested ops (episodes)
 }
 
+// S2 returns the checkpoint mode carried by a nested "ls checkpoint" op (field L: 0 PASSIVE, 1 FULL, 2 RESTART, 3 TRUNCATE).
+func (o Op) S2() string {
+	return [...]string{"PASSIVE", "FULL", "RESTART", "TRUNCATE"}[o.L&3]
+}
+
 func (o Op) String() string {
 	s := o.K
 	if o.C != 0 {
